@@ -143,6 +143,21 @@ def generate(repo, outdir_lean, outdir_json, write_if_changed):
                  f"classAttrs := {'eClass' if e else 'cClass'}, hidden := {hidden}, qtyAttr := {qty}, aaQ := {aaq}, aaC := {aac}, "
                  f"difficulty := {diff}, dispatch := dispatch }}")
         L.append("")
+    for v in versions:
+        vv = v.replace(".", "_")
+        L.append(f"def e_{vv} : Table := table_{vmap[(v, 'effects')]}")
+        L.append(f"def c_{vv} : Table := table_{vmap[(v, 'conditions')]}")
+    L.append("/-- interned attribute names and a few dataset constants, for readable witnesses -/")
+    for i, a in enumerate(e_names):
+        L.append(f"def eA_{a} : Nat := {i}")
+    for i, a in enumerate(c_names):
+        L.append(f"def cA_{a} : Nat := {i}")
+    from AoE2ScenarioParser.datasets.effects import EffectId
+    from AoE2ScenarioParser.datasets.trigger_lists import ObjectAttribute
+    L.append(f"def activateTrigger : Int := {int(EffectId.ACTIVATE_TRIGGER)}")
+    L.append(f"def modifyAttribute : Int := {int(EffectId.MODIFY_ATTRIBUTE)}")
+    L.append(f"def attackAttribute : Int := {int(ObjectAttribute.ATTACK)}")
+    L.append("")
     L.append("/-- scenario version ↦ (effect table, condition table) -/")
     L.append("def versions : List (String × Table × Table) := [")
     L.append(",\n".join(f"  ({_lean_str(v)}, table_{vmap[(v, 'effects')]}, table_{vmap[(v, 'conditions')]})" for v in versions))
